@@ -285,7 +285,12 @@ impl rabuf::SmallWrite for VarFile {
     }
     #[inline]
     fn write_all_small(&mut self, buf: &[u8]) -> Result<()> {
-        self.buf_file.write_all_small(buf)
+        // the small write of rabuf is only for a buffer that fits in a chunk (at least 4096 bytes).
+        if buf.len() <= 4096 {
+            self.buf_file.write_all_small(buf)
+        } else {
+            self.buf_file.write_all(buf)
+        }
     }
     #[inline]
     fn write_zero(&mut self, size: u32) -> Result<()> {
